@@ -375,6 +375,151 @@ def listing_size_boundary(tools, work, rep, ev):
     return n
 
 
+XA_VAL = {"s": b"s", "L": b"L" * 12, "M": b"M" * 12}
+
+
+def xattr_writer_stage(tools, work, rep, ev, tier, rng):
+    """spec/XattrWriter.tla: interning of keys / values, replace-on-same-key, the search tree of distinct sets, out-of-line
+    sharing of long values.  Every add sequence TLC emits is run (i) on the real xattr writer + reader through
+    harness/replay_xattrwr.c (ASan) and (ii), for the sequences without a repeated key, through gensquashfs --xattr-file and
+    the independent decoder.  Judged at property level: every inode reads back the last value added per key, nothing else."""
+    cfg = work + "/xattrw.cfg"
+    BASE = {"Emit": False, "MaxInodes": 2, "MaxAdds": 2, "Compare": '"pairs"', "ReplaceSameKey": True, "OolNeedsLong": True,
+            "OolByValue": True, "NLong": 2}
+    INV = ["Fidelity", "Dedup", "OolSound", "RefCountCovers", "NoEmptySet"]
+    bounds = [dict(BASE), dict(BASE, MaxInodes=3, NLong=1)] + ([dict(BASE, MaxInodes=3, NLong=2)] if tier != "quick" else [])
+    for b in bounds:
+        write_cfg(cfg, spec="Spec", constants=b, invariants=INV, deadlock=False)
+        r = run_tlc("XattrWriter", cfg, workers=8, timeout=1800, heap="12g")
+        ev.tlc(r, "XattrWriter inodes<=%d adds<=%d long=%d" % (b["MaxInodes"], b["MaxAdds"], b["NLong"]))
+        if not r["ok"]:
+            print("MODEL-FAILURE: XattrWriter violates %s" % r["violated"])
+            return None
+    for dev in ({"Compare": '"values"'}, {"Compare": '"keys"'}, {"Compare": '"count"'}, {"Compare": '"first"'},
+                {"ReplaceSameKey": False}, {"OolByValue": False}):
+        write_cfg(cfg, spec="Spec", constants=dict(BASE, **dev), invariants=INV, deadlock=False)
+        r = run_tlc("XattrWriter", cfg, workers=8, timeout=900)
+        ev.tlc(r, "dev XattrWriter %s" % dev)
+        if r["violated"] != "Fidelity":
+            print("SELF-CHECK-FAILED: deviation %s of XattrWriter gives no Fidelity counterexample" % dev)
+            return None
+    cases = []
+    for b in bounds[:2] if tier == "quick" else bounds[1:]:
+        write_cfg(cfg, spec="Spec", constants=dict(b, Emit=True), invariants=["EmitOK"], deadlock=False)
+        r = run_tlc("XattrWriter", cfg, workers=4, timeout=1800, heap="12g")
+        cases += bpbind.parse_emitted(r["out"])
+    ev.set("xattr_writer_inputs_emitted", len(cases))
+    if not cases:
+        print("SELF-CHECK-FAILED: XattrWriter emitted no input")
+        return None
+    # stratify: inputs where two inodes carry sets of the same size (the search tree has to tell them apart or share them)
+    def samesize(c):
+        sz = [len({a[0] for a in ino}) for ino in c["input"]]
+        return any(x and sz.count(x) > 1 for x in sz)
+    hot = [c for c in cases if samesize(c)]
+    rest = [c for c in cases if not samesize(c)]
+    rng.shuffle(hot)
+    rng.shuffle(rest)
+    cap = 6000 if tier == "quick" else 10 ** 9
+    cases = hot[:cap] + rest[:cap // 3]
+    binp = work + "/replay_xattrwr"
+    if not build.compile_harness(VERIF + "/harness/replay_xattrwr.c", binp, variant="asan"):
+        raise RuntimeError("harness build failed")
+
+    def want(ino):
+        m = {}
+        for k, v in ino:
+            m[k] = XA_VAL[v]
+        return m
+
+    def chunk(ci):
+        part = cases[ci::16]
+        txt = []
+        for c in part:
+            txt.append("C")
+            for ino in c["input"]:
+                txt.append("I")
+                for k, v in ino:
+                    txt.append("A %s %s" % (k, XA_VAL[v].hex()))
+                txt.append("E")
+            txt.append("F")
+        p = subprocess.run(["timeout", "600", binp, "%s/xw%d.bin" % (work, ci)], input="\n".join(txt) + "\n", capture_output=True, text=True,
+                           env=dict(os.environ, ASAN_OPTIONS="detect_leaks=1:abort_on_error=0"))
+        return part, p
+    bad, drift, n = [], [], 0
+    with ThreadPoolExecutor(16) as ex:
+        for part, p in ex.map(chunk, range(16)):
+            lines = [l for l in p.stdout.split("\n") if l.startswith("{")]
+            if "ERROR: AddressSanitizer" in p.stderr or "ERROR: LeakSanitizer" in p.stderr or p.returncode != 0 or len(lines) != len(part):
+                bad.append(("memory", "xattr writer / reader harness: rc %d, %d of %d cases answered: %s" % (p.returncode, len(lines), len(part), p.stderr[-400:]), None))
+                continue
+            for c, l in zip(part, lines):
+                n += 1
+                r = json.loads(l)
+                if r["err"] or r["lerr"]:
+                    bad.append(("refused", "the xattr writer / reader refuses %s: err %d / %d" % (c["input"], r["err"], r["lerr"]), c))
+                    continue
+                for i, ino in enumerate(c["input"]):
+                    w = want(ino)
+                    got = r["back"][i]
+                    if r["idx"][i] == -1:
+                        if w:
+                            bad.append(("lost", "inode %d of %s gets no xattr index" % (i + 1, c["input"]), c))
+                        continue
+                    if isinstance(got, dict):
+                        bad.append(("unreadable", "inode %d of %s: reading set %d back fails (%s)" % (i + 1, c["input"], r["idx"][i], got), c))
+                        continue
+                    g = sorted((k, bytes.fromhex(v)) for k, v in got)
+                    if g != sorted(w.items()):
+                        bad.append(("fidelity", "add sequences %s: inode %d reads back %s, added %s" % (c["input"], i + 1, g, sorted(w.items())), c))
+                if not r["history_free"]:
+                    bad.append(("history", "add sequences %s: a reader that answered earlier queries gives a different answer than a fresh one" % c["input"], c))
+                norm = {}
+                nidx = [0 if x == -1 else norm.setdefault(x, len(norm) + 1) for x in r["idx"]]
+                if nidx != c["idx"] or (0 if r["noxattr"] else r["nsets"]) != c["nsets"]:
+                    drift.append((c["input"], nidx, c["idx"], r["nsets"], c["nsets"]))
+    ev.set("xattr_writer_inputs_replayed_on_library", n)
+    # tool level: sequences without repeated keys as an --xattr-file
+    tcases = [c for c in cases if all(len({a[0] for a in ino}) == len(ino) for ino in c["input"])][: (400 if tier == "quick" else 5000)]
+
+    def tool(i):
+        c = tcases[i]
+        sc = gen.Scenario(work, "xw_t%d" % i)
+        for j, ino in enumerate(c["input"]):
+            sc.add_file("/f%d" % j, b"x%d" % j)
+            for k, v in ino:
+                sc.set_xattr("/f%d" % j, k, XA_VAL[v])
+        img = sc.dir + "/o.sqfs"
+        cmd = [tools + "/gensquashfs", "-q", "-f", "-F", sc.packfile(), img]
+        if sc.xattrfile():
+            cmd[1:1] = ["-A", sc.xattrfile()]
+        rc, o, e = sh(cmd, timeout=60)
+        res = None
+        if rc != 0 or b"ERROR: AddressSanitizer" in e:
+            res = ("refused", "gensquashfs fails on xattr sets %s: rc %d %s" % (c["input"], rc, e[-200:].decode(errors="replace")), c)
+        else:
+            diffs = fidelity.compare(sc.expected(), fidelity.decoded_tree(sqfsimg.load(img)))
+            if diffs:
+                res = ("fidelity", "xattr sets %s through gensquashfs -A: %s" % (c["input"], diffs[:3]), c)
+        shutil.rmtree(sc.dir, ignore_errors=True)
+        return res
+    with ThreadPoolExecutor(16) as ex:
+        for res in ex.map(tool, range(len(tcases))):
+            if res:
+                bad.append(res)
+    ev.set("xattr_writer_inputs_through_gensquashfs", len(tcases))
+    ev.set("xattr_set_indices_that_differ_from_the_model(spec drift, no alarm)", len(drift))
+    if drift:
+        print("SPEC-DRIFT (no alarm): %d xattr set index assignments differ from XattrWriter.tla, e.g. %s" % (len(drift), json.dumps(drift[0])[:300]))
+    seen = set()
+    for key, what, c in bad:
+        if key in seen:
+            continue
+        seen.add(key)
+        rep.violation("xattr-" + key if key != "fidelity" else "fidelity-xattr", what, data={"case": c})
+    return n + len(tcases)
+
+
 def run(tier):
     ev = Evidence(PID, tier, "exploration")
     rep = Reporter(PID, ev)
@@ -589,6 +734,10 @@ def run(tier):
             rep.violation("id-table-overflow", "%d distinct ids: exit 0 but the image does not read back: %s" % (nid + 1, diffs))
         elif rc != 0 and nid + 1 <= 0xFFFF:
             rep.violation("pack-refuses-valid", "%d distinct ids are representable but gensquashfs refuses them (rc %d)" % (nid + 1, rc))
+    xn = xattr_writer_stage(tools, work, rep, ev, tier, rng)
+    if xn is None:
+        return 2
+    evaluations += xn
     ev.set("evaluations", evaluations)
     ev.set("distinct_nontrivial", len(nontrivial))
     ev.set("rule", "programs: every pack-file program of <=2 directives over 6 paths x 5 kinds emitted by TLC (all in thorough, half with link "
